@@ -29,6 +29,9 @@ def dispatch (s : DState) (line : String) : DState × String :=
       | "decm" :: rest => chkDec false s rest
       | "c17" :: rest => (s, chkC17 rest)
       | "bld" :: rest => (s, chkBld rest)
+      | "agga" :: rest =>
+        let (t, o) := chkAggA s.aggArith rest
+        ({ s with aggArith := t }, o)
       | "aggc" :: rest =>
         let (t, o) := chkAggC s.aggCorr rest
         ({ s with aggCorr := t }, o)
